@@ -95,16 +95,16 @@ type fObs struct {
 	hangAfter bool
 	// staleAfter: that next command (a get of a never-stored key) was answered with something other than a miss
 	staleAfter string
-	n1, n2    int
-	l1, l2    string
-	reads     [][2][]byte
-	crashed   string
+	n1, n2     int
+	l1, l2     string
+	reads      [][2][]byte
+	crashed    string
 }
 
 var (
-	c10bB        *stack.Backends
-	c10bSock1    string
-	c10bSock2    string
+	c10bB     *stack.Backends
+	c10bSock1 string
+	c10bSock2 string
 )
 
 func runFault(c fCase, arm bool) fObs {
